@@ -201,3 +201,27 @@ def _is_do_while_tail(text, i):
     while j >= 0 and text[j].isspace():
         j -= 1
     return j >= 0 and text[j] == '}'
+
+
+def extract_local_helpers(ctx, rel):
+    """File-local helpers a refactor may introduce next to the functions under contract: anonymous
+    namespaces and file-scope `static` functions of the given source file, verbatim (so that a helper
+    factored out of an extracted function stays part of the verified text instead of breaking the
+    extraction).  Returns [Extracted]."""
+    src = ctx.read(rel)
+    out = []
+    for m in re.finditer(r'^[ \t]*namespace[ \t]*\{', src, re.M):
+        k = src.find('{', m.start())
+        e = match_brace(src, k)
+        text = src[m.start():e + 1]
+        out.append(Extracted(name='anonymous namespace in ' + rel, file=rel, line0=src.count('\n', 0, m.start()) + 1,
+                             line1=src.count('\n', 0, e) + 1, sha256=sha(text), text=text))
+    for m in re.finditer(r'^[ \t]*static[ \t]+(?:inline[ \t]+)?[\w:<>\*&, \t]+?\b(\w+)[ \t]*\([^;{}]*\)[ \t\n]*\{', src, re.M):
+        if any(o.line0 <= src.count('\n', 0, m.start()) + 1 <= o.line1 for o in out):
+            continue
+        k = src.find('{', m.end() - 1)
+        e = match_brace(src, k)
+        text = src[m.start():e + 1]
+        out.append(Extracted(name='static ' + m.group(1) + ' in ' + rel, file=rel, line0=src.count('\n', 0, m.start()) + 1,
+                             line1=src.count('\n', 0, e) + 1, sha256=sha(text), text=text))
+    return out
